@@ -47,6 +47,7 @@ func newWorldFor(cfg RunCfg) (*World, map[string]int) {
 	if set&cbCodec != 0 {
 		valOverhead = 1
 	}
+	bytesUnspecified = set&cbCodecRaw != 0
 	var rc *RefCounter
 	if set&cbRefCount != 0 {
 		rc = NewRefCounter()
